@@ -5,8 +5,15 @@ concrete predicate must end in SQL or in one of the four diagnostic exception ty
 and the SQL (preamble, defines_and_exports, main_predicate_sql) must pass the
 lexer/scoper of lv/sqlscope.py: literals/comments/brackets balance, every alias.column
 has its alias introduced by an enclosing FROM, every unqualified FROM table is a WITH
-table defined earlier, no compiler placeholder leaks.  On SQLite the SQL is also
-executed (the scoper is calibrated in both directions).
+table defined earlier IN THE SAME STATEMENT (every defines_and_exports statement - the
+CREATE TABLE of a @Ground predicate - and the final query are scoped on their own), no
+compiler placeholder leaks.  On SQLite the SQL is also executed (the scoper is
+calibrated in both directions).
+
+The programs carry drawn plan annotations (@Ground, @With, @NoWith, @NoInject) on their
+concrete predicates, so multi-statement plans with nested WITH tables shared between
+statements occur, and use aggregation (predicate level, aggregating expressions with and
+without a body, inline `v Op= e`) and negation.
 """
 import copy
 import json
@@ -19,15 +26,20 @@ from lv import core, model, gen, drive, sqlscope
 from lv.props import common
 
 ID = 'C09'
-BUDGET = {'quick': 240, 'thorough': 5000}        # generated programs (x 8 engines)
+BUDGET = {'quick': 200, 'thorough': 5000}        # generated programs (x 8 engines)
 WALL = {'quick': 900, 'thorough': 3600}
 ENGINES = list(sqlscope.ENGINES)
 RULE = ('programs from the typed core-fragment generator (facts, joins, multi-rule and '
         '| predicates, named/positional arguments, arithmetic, ++, comparisons, boolean '
         'propositions, assignment, in, lists, records and field access, Size/Element, '
-        'if-then-else, functional and injectible predicates), printed once per engine '
-        '(the @Engine line is the only difference); every concrete predicate is '
-        'compiled for each of the 8 engines.  One case = (program, engine); it is '
+        'if-then-else, functional and injectible predicates incl. ones containing combines; '
+        'predicate-level aggregation and distinct, aggregating literals in the four '
+        'spellings, aggregating expressions `Op{e :- body}` and body-less `Op{e}` / inline '
+        '`v Op= e` at any expression position, negation), with a drawn assignment of '
+        '{none, @Ground, @With, @NoWith, @NoInject, @NoInject+@With, @NoInject+@NoWith} to '
+        'the concrete predicates (multi-statement plans, WITH tables shared by statements), '
+        'printed once per engine (the @Engine line is the only difference); every concrete '
+        'predicate is compiled for each of the 8 engines.  One case = (program, engine); it is '
         'non-trivial when some predicate of it compiles to SQL that has >= 2 FROM '
         'aliases and >= 1 sub-query or WITH table; distinct by hash of (program text '
         'incl. engine line).  The per-engine split of sql / diagnostic / violation is '
@@ -41,7 +53,18 @@ ASSUMPTIONS = [
     'well-formedness of text inside $$...$$ blocks is not examined',
     'dialect-library parse memoised per process (filled by the real parser)',
 ]
-OPTS = dict(p_colnames=0.0, p_composite_col=0.3)
+AGG_N = ('Sum', 'Min', 'Max', 'Count', '+', 'List', 'Set', 'ArgMin', 'ArgMax')
+OPTS = dict(p_colnames=0.0, p_composite_col=0.3,
+            p_neg=0.2, p_agg=0.3, p_distinct=0.35, p_sibling_reuse=0.3, p_sibling_reuse_neg=0.3,
+            p_feed_sibling=0.2, nest_depth=2, agg_ops=AGG_N, pred_agg_ops_n=AGG_N,
+            pred_agg_ops_s=('Min', 'Max', 'List', 'Set', 'Count', 'ArgMin', 'ArgMax'),
+            p_aggx=0.08, p_aggx_nobody=0.5, p_agg_nobody=0.15,
+            n_idb=(2, 4), p_call_idb=0.35, p_inj_combine=0.3, p_inj_extra=0.15,
+            p_fcall_nest=0.2)
+# plan annotations drawn per concrete predicate (weights by repetition)
+PLAN_CHOICES = ((), (), (), ('@Ground',), ('@Ground',), ('@With',), ('@NoWith',),
+                ('@NoInject',), ('@NoInject', '@With'), ('@NoInject', '@NoWith'))
+P_NO_PLAN = 0.15
 
 # Finding D1 (Databricks.Subscript arity) was repaired in /repo (fix: commit f254f71);
 # nothing is excluded any more.  VERIF_C09_EXCLUDE_D1=1 restores the old exclusion
@@ -53,6 +76,18 @@ D1_BUCKET = ('internal:TypeError@compiler/expr_translate.py:Subscript:'
 STRUCTURAL_SQLITE = ('no such column', 'no such table', 'near ', 'unrecognized token',
                      'incomplete input', 'ambiguous column', 'no such function',
                      'wrong number of arguments', 'no tables specified')
+
+
+def draw_plan(prog, rng):
+    """-> (program with the annotation lines added to prog['ann'], labels)."""
+    if rng.random() < P_NO_PLAN:
+        return prog, ['plan:none']
+    asg = {p: rng.choice(PLAN_CHOICES) for p in prog['preds']}
+    lines = ['%s(%s);' % (a, p) for p in sorted(asg) for a in asg[p]]
+    p2 = dict(prog)
+    p2['ann'] = list(prog.get('ann', [])) + lines
+    labels = sorted(set('plan:' + a for v in asg.values() for a in v)) or ['plan:none']
+    return p2, labels
 
 
 def engine_text(prog, engine):
@@ -156,9 +191,15 @@ def analyse(pr, engine, hdr, externals=()):
     ok = True
     main_sc = None
     for name, part in sql_parts(pr):
+        # every part is scoped on its own: a WITH table used by a statement has to be
+        # defined in that statement
         sc = sqlscope.check(part, engine, externals)
         for k in tot:
             tot[k] += sc.stats.get(k, 0)
+        if name.startswith('define') and sc.stats.get('selects'):
+            tot['statements'] = tot.get('statements', 1) + 1
+            if sc.stats.get('with_tables'):
+                tot['define_with'] = tot.get('define_with', 0) + 1
         if name == 'main':
             main_sc = sc
         seen = set()
@@ -294,11 +335,12 @@ def shard(ctx, col):
         prog = gen.gen_program(rng, **OPTS)
         for k, v in prog.get('excluded', {}).items():
             col.excluded[k] += v
+        prog, plan_labels = draw_plan(prog, rng)
         fa = {p: uses_field_access(prog, p) for p in prog['preds']}
         for engine in ENGINES:
             text = engine_text(prog, engine)
             nt = False
-            labels = set()
+            labels = set(plan_labels)
             sample = None
             todo = []
             for p in prog['preds']:
@@ -328,6 +370,10 @@ def shard(ctx, col):
                         labels.add('sql:with_table')
                     if r['stats']['subqueries']:
                         labels.add('sql:subquery')
+                    if r['stats'].get('statements'):
+                        labels.add('sql:multi_statement')
+                    if r['stats'].get('define_with'):
+                        labels.add('sql:with_table_in_create_statement')
                 for b, d in r['failures']:
                     col.fail(b, {'prog': model.prog_to_json(prog), 'pred': p,
                                  'engine': engine}, d)
